@@ -6,6 +6,7 @@ import Rare.Proofs.C11Hf
 import Rare.Proofs.C11CaseC13
 import Rare.Proofs.C11R4
 import Rare.Proofs.C11Log
+import Rare.Proofs.C17Atoi
 /-!
 # C11 — scalar helper functions follow their documented semantics
 
@@ -884,6 +885,34 @@ theorem number_spellings_table :
         (fun s => (Float.parseF s).isNone)) = true := by
   decide +kernel
 
+/-- **The integer grammar, as an iff** (closing the seam with C17's `atoi_iff`): `{isint a}` is truthy exactly when the
+    value is an optional sign `+` / `-` followed by one or more ASCII digits whose signed decimal value fits int64 –
+    no blanks, point, exponent, base prefix, underscore or non-ASCII digit; every integer helper (`sumi … modi`,
+    `bucket`, `clamp`, `hi` …) accepts exactly these spellings and answers `<BAD-TYPE>` on all others
+    (`nonnumeric_marker`, `nonnumeric_marker_unary`). -/
+theorem isint_grammar (c : Ctx) (a : Arg) :
+    callHelper Arith.kfIsInt [a] c = .ok TruthyVal ↔
+      ∃ sign ds, a.val c = sign ++ ds ∧ (sign = [] ∨ sign = [43] ∨ sign = [45]) ∧ ds ≠ [] ∧ ds.all isDigitB = true ∧
+        minInt64 ≤ (if sign = [45] then -(C17.decVal ds : Int) else (C17.decVal ds : Int)) ∧
+        (if sign = [45] then -(C17.decVal ds : Int) else (C17.decVal ds : Int)) ≤ maxInt64 := by
+  rw [isint_call]
+  have hne : TruthyVal ≠ FalsyVal := by decide +kernel
+  constructor
+  · intro h
+    cases hv : atoi (a.val c) with
+    | none =>
+      rw [hv] at h
+      simp only [Option.isSome_none, Bool.false_eq_true, if_false, Except.ok.injEq] at h
+      exact absurd h.symm hne
+    | some v =>
+      obtain ⟨sign, ds, h1, h2, h3, h4, h5, h6, h7⟩ := (C17.atoi_iff _ v).mp hv
+      exact ⟨sign, ds, h1, h2, h3, h4, by rw [← h5]; exact h6, by rw [← h5]; exact h7⟩
+  · rintro ⟨sign, ds, h1, h2, h3, h4, h6, h7⟩
+    have := (C17.atoi_iff (a.val c) _).mpr ⟨sign, ds, h1, h2, h3, h4, rfl, h6, h7⟩
+    rw [this]; rfl
+
+example : ∃ sign ds, ascii "-007" = sign ++ ds ∧ (sign = [] ∨ sign = [43] ∨ sign = [45]) ∧ ds ≠ [] ∧ ds.all isDigitB = true :=
+  ⟨[45], ascii "007", by decide +kernel, Or.inr (Or.inr rfl), by decide +kernel, by decide +kernel⟩
 /-- `{coalesce a₁ … aₙ}`: the first non-empty value (empty when there is none, also for no arguments). -/
 theorem coalesce_spec (c : Ctx) (as : List Arg) :
     callHelper Logic.kfCoalesce as c = .ok (coalesceSpec (as.map (Arg.val c))) ∧
